@@ -278,6 +278,12 @@ func doParsing(mp *msgParser) (err error) {
 		mp.fieldIndex++
 	}
 
+	// The field slice was sized by counting SOH bytes; an SOH inside XMLData makes that an
+	// over-estimate. Keep exactly the fields that were parsed, so that neither zero entries nor,
+	// when the Message is reused, fields of an earlier message are seen by validation and by the
+	// length check below.
+	mp.msg.fields = mp.msg.fields[:mp.fieldIndex+1]
+
 	// This will happen if there are no fields in the body
 	if mp.foundTrailer && !mp.foundBody {
 		mp.trailerBytes = mp.rawBytes
